@@ -46,11 +46,9 @@ Definition b2n (b : bool) : N := if b then 1%N else 0%N.
 Definition kcmp_of (ranks : list N) (a b : key) : comparison :=
   N.compare (nth (N.to_nat a) ranks 0%N) (nth (N.to_nat b) ranks 0%N).
 
-(* (==, cmp, hash streams equal) of the model, as coded / repaired *)
-Definition obs_model (fixed : bool) (ranks : list N) (a b : ms) : N * N * N :=
-  (b2n (if fixed then eq_fixed a b else eq_iter a b),
-   cmp_code (if fixed then cmp_fixed (kcmp_of ranks) a b else cmp_iter (kcmp_of ranks) a b),
-   b2n (raws_eqb (hash_raw a) (hash_raw b))).
+(* (==, cmp, hash streams equal) of the model *)
+Definition obs_model (ranks : list N) (a b : ms) : N * N * N :=
+  (b2n (eq_iter a b), cmp_code (cmp_iter (kcmp_of ranks) a b), b2n (raws_eqb (hash_raw a) (hash_raw b))).
 
 Definition obs_eqb (x y : N * N * N) : bool :=
   let '(a, b, c) := x in let '(a', b', c') := y in N.eqb a a' && N.eqb b b' && N.eqb c c'.
@@ -60,9 +58,9 @@ Definition pcase := (N * N * (N * N * N))%type.
 
 Definition getv (vals : list ms) (i : N) : ms := nth (N.to_nat i) vals MFalse.
 
-Definition pair_ok (fixed : bool) (ranks : list N) (vals : list ms) (c : pcase) : bool :=
+Definition pair_ok (ranks : list N) (vals : list ms) (c : pcase) : bool :=
   let '(i, j, o) := c in
-  obs_eqb (obs_model fixed ranks (getv vals i) (getv vals j)) o.
+  obs_eqb (obs_model ranks (getv vals i) (getv vals j)) o.
 
 (* the table of values is duplicate-free by construction (the harness dedups on the dump):
    the model's structural equality must agree, otherwise the dump -> term conversion is broken *)
@@ -75,18 +73,17 @@ Definition stream_ok (vals : list ms) (s : N * list rawword) : bool :=
 (* a domain: key ranks, values, pair cases, recorded hash streams *)
 Record dom := mkDom { d_ranks : list N; d_vals : list ms; d_pairs : list pcase; d_streams : list (N * list rawword) }.
 
-Definition dom_pairs_ok (fixed : bool) (d : dom) : bool :=
-  forallb (pair_ok fixed (d_ranks d) (d_vals d)) (d_pairs d).
+Definition dom_pairs_ok (d : dom) : bool :=
+  forallb (pair_ok (d_ranks d) (d_vals d)) (d_pairs d).
 Definition dom_spec_ok (d : dom) : bool := forallb (pair_spec_ok (d_vals d)) (d_pairs d).
 Definition dom_streams_ok (d : dom) : bool := forallb (stream_ok (d_vals d)) (d_streams d).
 
-(* diagnosis: failing pairs with (impl, model as coded, model repaired, structurally equal) *)
-Definition pair_diag (ranks : list N) (vals : list ms) (c : pcase) : list (N * N * (N * N * N) * (N * N * N) * (N * N * N) * bool) :=
+(* diagnosis: failing pairs with (impl, model, structurally equal) *)
+Definition pair_diag (ranks : list N) (vals : list ms) (c : pcase) : list (N * N * (N * N * N) * (N * N * N) * bool) :=
   let '(i, j, o) := c in
   let a := getv vals i in let b := getv vals j in
-  let mc := obs_model false ranks a b in
-  let mf := obs_model true ranks a b in
-  if obs_eqb mc o then [] else [(i, j, o, mc, mf, ms_eqb a b)].
+  let mc := obs_model ranks a b in
+  if obs_eqb mc o then [] else [(i, j, o, mc, ms_eqb a b)].
 Definition dom_diag (d : dom) := flat_map (pair_diag (d_ranks d) (d_vals d)) (d_pairs d).
 Definition dom_stream_diag (d : dom) : list N :=
   flat_map (fun s => if stream_ok (d_vals d) s then [] else [fst s]) (d_streams d).
